@@ -7,6 +7,16 @@ TB = ("Trusted: govc (own VC generator over go/ast+go/types; value model for sli
       "z3 4.8.12 / z3 5.1.0 / cvc5 1.0.3, go/types; integers mathematical; strings uninterpreted. ")
 
 claimed = {
+ "C05": dict(
+   text="Deductive proof that table compression is lossless: PackTable's postcondition (every non-blank entry retrievable through offset+check, "
+        "no blank entry claimed by its row) is proved for every rectangular matrix with quantified loop invariants over all 13 loops, "
+        "UnPackTable equals the lookup spec, SplitActionAndGotoTable is the column split/transposition, and TrySplitTable's postcondition "
+        "states, for every (state, symbol), lookup(packed arrays, ActionDef, GoToDef) == dense table entry - the statement of C05 itself. "
+        "All index expressions are proved in range.",
+   note=TB + "Assumed contract: sort.SliceStable yields a permutation. TrySplitTable requires a table without zero entries and the symbol layout "
+        "len(row)==len(VtSet)+len(VnSet) (established by GenTable/BuildLALR1, not yet proved). The generated (*StateSym).Action has an extra "
+        "shortcut (offset+a<0 => ERROR) that is covered with the driver contracts, not here. findMaxOccurence's result is arbitrary for C05 (any default is lossless).",
+   design="§5 C05, Appendix A.1/A.2", technique="contract-based deductive verification (govc VC generator + SMT), quantified loop invariants"),
  "C04": dict(
    text="Deductive proof, for every pair of candidate actions, that the real ResolveConflict / UseDefaultResolveConflict implement the "
         "statement's rules (higher precedence wins; equal: %left reduces, %right shifts, %nonassoc is an error; no precedence: shift wins, "
